@@ -10,5 +10,6 @@ func TestVerifReplay(t *testing.T) {
 	vrt.RunReplay(t, map[string]func(){
 		"VerifC19Quick":    VerifC19Quick,
 		"VerifC19Thorough": VerifC19Thorough,
+		"VerifC19Wide":     VerifC19Wide,
 	})
 }
